@@ -94,6 +94,11 @@ theorem parseImage_write (P : Params) (b : Block) (X' : Nat) (hlow : ∀ j, j < 
   repeat' split at h
   all_goals cases h
   simp_all
-  rw [if_neg (by omega), if_neg (by omega), if_neg (by omega), if_neg (by omega)]
+  repeat' split
+  all_goals first
+    | rfl
+    | (exfalso; omega)
+    | (exfalso; simp_all; done)
+    | (exfalso; rename_i hc; rcases hc with ⟨hs, h0 | h0⟩ <;> simp_all)
 
 end DS.Bloom
